@@ -450,5 +450,24 @@ def rule_z5(repo):
                           'a quantifier whose variable occurs only in the skipped position is removed as vacuous before the goal reaches Z3')
 
 
+def rule_z6(repo):
+    """The simplifier that prepares a goal for Z3 (prover/fologic.py) and the translation itself normalise
+    operands by swapping two names.  After the swap, the expression a name was first bound to denotes the
+    *other* operand: using it again is the wrong one of two similar things (`lhs, rhs = fm.arg1, fm.arg`;
+    swap; `Not(fm.arg1)` turns false <--> p into ~false)."""
+    from .. import persist
+    res = RuleResult('C06.Z6', 'after two operands were swapped, the expressions they were first bound to are not used again', floor=20)
+    for rel in ('prover/fologic.py', Z3, SYMPY):
+        m = repo.module(rel)
+        for f in m.all_funcs:
+            cfg = cfg_of(f.node)
+            bad = persist.stale_after_swap(f.node, cfg)
+            res.add('%s :: %s :: no-stale-operand' % (rel, f.qualname), not bad,
+                    'no use of a swapped operand through its old expression' if not bad else
+                    '`%s` (line %d) is used after `%s` (line %d), where it no longer is what `%s` stands for' % (
+                        bad[0][2], bad[0][1].lineno, src(bad[0][0].ast, 40), bad[0][0].lineno, bad[0][3]), f.loc, nontrivial=bool(bad))
+    return res
+
+
 def rules(repo):
-    return [rule_z1(repo)] + rule_z2_z3(repo) + [rule_z4(repo), rule_s1(repo), rule_s2(repo), rule_s3(repo), rule_z5(repo)]
+    return [rule_z1(repo)] + rule_z2_z3(repo) + [rule_z4(repo), rule_s1(repo), rule_s2(repo), rule_s3(repo), rule_z5(repo), rule_z6(repo)]
